@@ -30,8 +30,13 @@ class ContentType:
     def __repr__(self):
         if self.parameters:
             params = "; "
+            # Values are rendered as MIME quoted-strings: a backslash or a
+            # double quote inside one has to be escaped to survive parsing.
             params += "; ".join(
-                sorted(f'{k}="{v}"' for k, v in self.parameters.items())
+                sorted(
+                    '{}="{}"'.format(k, str(v).replace("\\", "\\\\").replace('"', '\\"'))
+                    for k, v in self.parameters.items()
+                )
             )
         else:
             params = ""
